@@ -147,7 +147,7 @@ def caller_roundtrip(r, pfx, form, avoid, delims):
                         "hdr": None})
         tab = draw_table(r, form, delim, huge=(form == "bin"))
         hdr = T.gen_header(r) if fform == "sfile" else None
-        if form == "txt" and chance(r, 0.25):
+        if chance(r, 0.25 if form == "txt" else 0.12):
             # C04: the table reaches the file in several blocks through ONE writer handle, later blocks in
             # the same or the other byte order (a text file is byte-order free)
             h = "%sw%d" % (pfx, len(ops))
@@ -155,12 +155,12 @@ def caller_roundtrip(r, pfx, form, avoid, delims):
                         "mode": "w", "delim": delim})
             ops.append({"k": "write", "h": h, "tab": tab, "hdr": hdr})
             for _ in range(r.randrange(1, 3)):
-                f = tab["fields"] if chance(r, 0.35) else other_order(tab["fields"])
+                f = tab["fields"] if (form == "bin" or chance(r, 0.35)) else other_order(tab["fields"])
                 if chance(r, 0.08):
                     ops.append({"k": "write", "h": h, "tab": {"fields": f, "nrows": 0, "dseed": 1}, "hdr": None})
                 ops.append({"k": "write", "h": h, "tab": {"fields": f, "nrows": draw_nrows(r, small=True),
                                                           "dseed": r.randrange(1 << 30)}, "hdr": None})
-            ops.append({"k": "close", "h": h})
+            ops.append({"k": "close", "h": h, "drop": True} if chance(r, 0.3) else {"k": "close", "h": h})
         else:
             op = {"k": "create", "p": p, "form": fform, "delim": delim,
                   "entry": pick(r, SF_CREATE if fform == "sfile" else RAW_CREATE), "tab": tab, "hdr": hdr}
@@ -179,6 +179,23 @@ def caller_roundtrip(r, pfx, form, avoid, delims):
                 ops.append({"k": "append", "p": p, "entry": pick(r, ents), "delim": delim,
                             "tab": {"fields": f, "nrows": draw_nrows(r, small=True), "dseed": r.randrange(1 << 30)},
                             "hdr": None})
+        if chance(r, 0.15 if form == "txt" else 0.08):
+            # the file is taken up again through ONE r+ object: rows are added and read back through that object
+            h = "%su%d" % (pfx, len(ops))
+            ops.append({"k": "open_w", "h": h, "p": p, "kind": "SFile" if fform == "sfile" else "Recfile", "mode": "r+",
+                        "nrows": pick(r, ["given", "count"])})
+            for _ in range(r.randrange(1, 3)):
+                if chance(r, 0.3):
+                    ops.append({"k": "hread", "h": h, "sel": {"style": pick(r, ["read_kw", "getitem_rows"])}})
+                f = tab["fields"] if (form == "bin" or chance(r, 0.5)) else other_order(tab["fields"])
+                ops.append({"k": "write", "h": h, "tab": {"fields": f, "nrows": draw_nrows(r, small=True),
+                                                          "dseed": r.randrange(1 << 30)}, "hdr": None})
+                sel = {"style": pick(r, ["read_kw", "getitem_rows"])}
+                if chance(r, 0.4):
+                    sel = {"style": "getitem_rows", "rows": {"t": "slice", "v": pick(r, [[-2, None, None], [0, 2, None], [-1, None, None],
+                                                                                          [1, None, 2]])}}
+                ops.append({"k": "hread", "h": h, "sel": sel})
+            ops.append({"k": "close", "h": h, "drop": True} if chance(r, 0.25) else {"k": "close", "h": h})
         for _ in range(r.randrange(1, 5)):
             if fform == "sfile" and chance(r, 0.25):
                 ops.append({"k": "header", "p": p, "entry": pick(r, HDR_READ)})
@@ -398,7 +415,10 @@ def caller_history(r, pfx, avoid):
                                "rows": {"t": "list", "v": [0] if chance(r, 0.5) else [0, 0], "c": "list", "dt": "i8"}}
                 ops.append({"k": "hread", "h": s["h"], "sel": sel})
             else:
-                ops.append({"k": "close", "h": s["h"]})
+                cop = {"k": "close", "h": s["h"]}
+                if chance(r, 0.2):
+                    cop["drop"] = True        # the object is released without close()
+                ops.append(cop)
                 s["h"] = None
             continue
         x = r.random()
@@ -448,6 +468,10 @@ def caller_history(r, pfx, avoid):
             nd = nd_of(aop["tab"])
             if nd:
                 aop["nd"] = [nd[0], aop["tab"]["nrows"] // nd[0]]
+            if s["form"] == "sfile" and chance(r, 0.2):
+                # an append-or-create caller passes the same delim= on every call; for a file that exists the
+                # keyword is documented as ignored (the form comes from the file's own header)
+                aop["kwdelim"] = pick(r, [d for d in [None] + list(DELIMS_C03) if d != s["delim"]])
             ops.append(aop)
         elif x < 0.37 and s["form"] == "sfile":
             f2, how = incompatible(r, s["fields"], form)
@@ -457,7 +481,10 @@ def caller_history(r, pfx, avoid):
             hcount[0] += 1
             h = "%sw%d" % (pfx, hcount[0])
             kind = "SFile" if s["form"] == "sfile" else "Recfile"
-            ops.append({"k": "open_w", "h": h, "p": p, "kind": kind, "mode": "r+", "nrows": pick(r, ["given", "count"])})
+            oop = {"k": "open_w", "h": h, "p": p, "kind": kind, "mode": "r+", "nrows": pick(r, ["given", "count"])}
+            if kind == "SFile" and chance(r, 0.2):
+                oop["kwdelim"] = pick(r, [d for d in [None] + list(DELIMS_C03) if d != s["delim"]])
+            ops.append(oop)
             s["h"], s["hmode"] = h, "r+"
         elif x < 0.62:
             # overwrite (possibly changing form, delimiter and fields)
